@@ -1,6 +1,6 @@
 SPECIFICATION Spec
 CONSTANTS
-  MaxStmts = 3
+  MaxStmts = 2
   MaxDepth = 3
   MaxUnits = 1
   MaxVar = 30
@@ -17,12 +17,12 @@ CONSTANTS
   EndForms <- Set1
   LabelStmts = FALSE
   Contains = FALSE
-  PKinds <- KMut
+  PKinds <- KBrk
   MaxEdits = 1
   InsSet <- InsSmall
   MinEdits = 0
   Randomised = FALSE
-  DumpMod = 157
+  DumpMod = 1
   NRepl = 17
   RichOnly = TRUE
   NeedStruct = FALSE
